@@ -108,6 +108,10 @@ def c11_into(out, nv=2):
     fn = eng.find("HelperAttributeForDefault::value")
     res = ex.run(fn, eng.args_for(fn))
     obl.note_paths("HelperAttributeForDefault::value", res, ex)
+    if len(res) > 4000:
+        # (a few hundred paths on the pinned tree) a change that makes the function recursive over syn::Expr multiplies its 40-way match: one query per path would take hours
+        out.inconclusive.append("fn=HelperAttributeForDefault::value reason=path explosion (%d paths): the `Into` obligation is not examined" % len(res))
+        return obl
     exprs = eng.ti.enums.get("Expr")
     lits = eng.ti.enums.get("Lit")
     if not exprs or not lits or "Lit" not in exprs or "Path" not in exprs:
